@@ -38,21 +38,22 @@ func writeEvidence(e *engine, prop, tier string, seed int, results []*obligation
 		}
 		sort.Strings(reachIDs)
 		s := map[string]interface{}{
-			"obligation":        strings.TrimPrefix(r.Name, "VerifHarness_"),
-			"paths":             r.Paths,
+			"obligation":                strings.TrimPrefix(r.Name, "VerifHarness_"),
+			"paths":                     r.Paths,
 			"paths_ended_by_assumption": r.Ended,
-			"assert_queries":    r.Asserts,
-			"discharged":        r.Discharged,
-			"violations":        len(r.Violations),
-			"reach_points":      reachIDs,
-			"ssa_instructions":  r.Steps,
-			"if_converted_regions": r.Merges,
-			"solver_queries":    r.Queries,
-			"sat":               r.Sat,
-			"unsat":             r.Unsat,
-			"unknown":           r.Unknown,
-			"solver_time_s":     round2(r.SolverTime.Seconds()),
-			"wall_s":            round2(r.Wall.Seconds()),
+			"assert_queries":            r.Asserts,
+			"discharged":                r.Discharged,
+			"violations":                len(r.Violations),
+			"reach_points":              reachIDs,
+			"ssa_instructions":          r.Steps,
+			"if_converted_regions":      r.Merges,
+			"solver_queries":            r.Queries,
+			"solver_queries_answered_from_cache_of_identical_text": r.Cached,
+			"sat":                   r.Sat,
+			"unsat":                 r.Unsat,
+			"unknown":               r.Unknown,
+			"solver_time_s":         round2(r.SolverTime.Seconds()),
+			"wall_s":                round2(r.Wall.Seconds()),
 			"sample_decision_paths": r.SamplePaths,
 		}
 		for id, mdl := range r.Reach {
@@ -140,10 +141,10 @@ func writeEvidence(e *engine, prop, tier string, seed int, results []*obligation
 			"encoder_selftest":              e.selftest,
 			"encoder_operator_differential": e.opsDiff,
 			"observed_values_compared_engine_vs_native": obsCompared,
-			"known_findings_seen":           known,
-			"inconclusive":                  incon,
-			"sample_violations":             sampleViol,
-			"exhaustive":                    false,
+			"known_findings_seen":                       known,
+			"inconclusive":                              incon,
+			"sample_violations":                         sampleViol,
+			"exhaustive":                                false,
 		},
 		"assumptions": []string{
 			"A1 hashes are collision-free labels (structural, injective)",
@@ -161,4 +162,3 @@ func writeEvidence(e *engine, prop, tier string, seed int, results []*obligation
 }
 
 func round2(f float64) float64 { return float64(int64(f*100+0.5)) / 100 }
-
